@@ -342,6 +342,23 @@ def solveLp (c : Vec) (A : Mat) (b : Vec) (minimize : Bool) (eps : Rat) (maxIter
       (phase2 eps (maxIter - p.iters) 0 p.tab)
   else finishLp n m minimize 0 false (phase2Near eps maxIter t0) (phase2 eps maxIter 0 t0)
 
+/-- Coverage monitor (not part of the mirror's answer): how many artificial variables are still basic when
+phase 1 ends with value `0`, and how many of them the clean-up loop (`driveOut`) pivots out. `(0, 0)` when phase 1
+is not entered or ends infeasible. -/
+def artCounters (c : Vec) (A : Mat) (b : Vec) (minimize : Bool) (eps : Rat) (maxIter : Nat) : Nat × Nat :=
+  let m := b.length
+  let n := c.length
+  let w := if minimize then c else c.map (fun v => -v)
+  let t0 := initTab w A b
+  let flipped := flippedRows eps m t0
+  if flipped.length = 0 then (0, 0) else
+  let r := phase2 eps maxIter 0 (artTab n m flipped t0)
+  if lastR r.tab.obj < -eps then (0, 0) else
+  let nm := n + m
+  let before := (r.tab.basis.filter (fun v => decide (v ≥ nm))).length
+  let after := ((driveOut eps nm r.tab).basis.filter (fun v => decide (v ≥ nm))).length
+  (before, before - after)
+
 /-- the LP that `solveLp`'s certificate is about -/
 def mkLP (c : Vec) (A : Mat) (b : Vec) (minimize : Bool) : LP :=
   ⟨A, b, if minimize then c else c.map (fun v => -v)⟩
